@@ -712,6 +712,7 @@ impl Inner {
                     .add_queue(
                         PathBuf::from("/nonexistent/hqsim-autoalloc"),
                         queue_parameters(spec),
+                        None,
                         spec.known_shape.as_ref().map(descriptor),
                         Box::new(handler),
                     )
